@@ -155,6 +155,15 @@ def main():
         for k in kernels:
             for npass in (1, 2):
                 cases.append((0, [f2[i] for i in k], npass))
+        # forms with alternative port assignments (the balancer explores them depth-first): alone, first and last in
+        # kernels of length <= 3 - the bottleneck must not exceed the uniform one (first alternative, uniform split)
+        _, alt = forms_c01(ports)
+        alt = alt + [{0: [[1, as_ports(subsets(ports)[0])]], 1: [[2, as_ports(subsets(ports)[1])]], 2: [[1, as_ports(subsets(ports)[-1])]]}]
+        for a in alt:
+            for rest in [[]] + [[x] for x in f2] + [[x, y] for x in f1 for y in f1]:
+                for k in ([a] + rest, rest + [a]) if rest else ([a],):
+                    for npass in (1, 2):
+                        cases.append((0, k, npass))
     else:
         R = Report("3-port synthetic models (single-char and multi-char port names); forms: 1 micro-op on every port subset x {1,2} cycles, every pair of 1-cycle micro-ops, 2 forms with alternative assignments; all kernels of length <= 2 (thorough: + seeded sample of length 3); x {uniform, 1 pass, 2 passes}; distinct = distinct (model, kernel, passes)", exhaustive=(A.tier != "thorough"))
         rnd = random.Random(A.seed)
@@ -177,13 +186,20 @@ def main():
         nontrivial = any(len(u) > 1 or len(u[0][1]) > 1 for u in forms if not isinstance(u, dict)) or any(isinstance(u, dict) for u in forms)
         R.case((pi, repr(forms), npass), nontrivial=nontrivial, sample=dict(desc, totals=tot))
         for what, detail, known in fails:
+            if MODE == "c02" and any(isinstance(u, dict) for u in forms):
+                continue  # per-instruction feasibility of forms with alternatives is C01's subject (its check runs them)
             if known:
                 known_seen += 1
                 if known_seen == 1:
                     R.fail("C01/optimal/second-pass-infeasible", "optimal:second-pass:overlapping-uops", detail, desc)
                 continue
             R.fail(f"{MODE.upper()}/optimal/{what}", f"optimal:{what}:passes={npass}", detail, desc)
-        if MODE == "c02" and tot is not None:
+        has_alt = any(isinstance(u, dict) for u in forms)
+        if MODE == "c02" and tot is not None and has_alt:
+            # forms with alternatives are outside the statement's 0.15-cy family; only "never worse than uniform" is claimed
+            if max(tot) > max(uni) + EPS:
+                R.fail("C02/optimal/worse-than-uniform", "c02:worse", f"bottleneck {max(tot)} after {npass} pass(es) > uniform {max(uni)} for kernel {forms}", desc)
+        elif MODE == "c02" and tot is not None:
             opt = optimum(ports, sel)
             if max(tot) > max(uni) + EPS:
                 R.fail("C02/optimal/worse-than-uniform", "c02:worse", f"bottleneck {max(tot)} after {npass} pass(es) > uniform {max(uni)} for kernel {forms}", desc)
